@@ -9,8 +9,8 @@ PROPS = {
     },
     "C12": {
         "suites": [("pure", "pattern"), ("pure", "lcs"), ("pure", "mdiff"), ("pure", "change"), ("gw", "reset")],
-        "theorems_carry": "Match never indexes out of range and, for every pattern of valid tokens and every name with non-empty tokens, decides token-wise wildcard matching (match_spec); patterns of valid tokens are accepted; invalid patterns match nothing; the collection diff applies in range and yields the new collection for any table; equal content yields no event; the model diff applied by the change handler yields the fetched model key by key (modelDiff_applies)",
-        "correspondence_only": "that the parser rejects every pattern with an invalid token (regenerated byte table + exhaustive small alphabet + spec monitor), the set of resources re-fetched and the events sent at gateway level (lockstep, profile reset)",
+        "theorems_carry": "Match never indexes out of range and, for every pattern of valid tokens and every name with non-empty tokens, decides token-wise wildcard matching (match_spec); a pattern is accepted iff its tokens are valid (parse_valid_iff), so match_spec holds for every accepted pattern; invalid patterns match nothing; the collection diff applies in range and yields the new collection for any table; equal content yields no event; the model diff applied by the change handler yields the fetched model key by key (modelDiff_applies)",
+        "correspondence_only": "the set of resources re-fetched and the events sent at gateway level (lockstep, profile reset)",
         "assumptions": ["encoding/json round trip of add/remove payloads is not modelled (exercised by applying the real events through the real handlers)"],
     },
     "C14": {
